@@ -310,6 +310,11 @@ func genSnapshot(r *rand.Rand, n, k int, named bool) []*stack.Goroutine {
 	if named {
 		applyNames(r, gs)
 	}
+	if n > 1 && r.Intn(10) == 0 {
+		// a snapshot built by hand or re-sorted by its user: the First goroutine is not the first element
+		gs[0].First = false
+		gs[1+r.Intn(n-1)].First = true
+	}
 	if r.Intn(4) == 0 {
 		// an "augmented" snapshot: Processed is a function of Values, as after source analysis
 		for _, x := range gs {
